@@ -205,65 +205,34 @@ def r93(ctx, prog):
 
 
 def r95(ctx, prog):
+    """identifier classification, decided on what tokens_to_operator_tree inserts for `identifier` followed by each token kind
+    (tables.token_semantics): an assignment token next => write target; else a left-sided value next => function; else (or at
+    the end) => variable read; the node carries the identifier unchanged."""
     try:
-        t2o, f, place, dsp = tables.token_to_operator(prog)
+        sem = tables.token_semantics(prog)
+        tp = tables.token_predicates(prog)
     except tables.TableError as e:
-        ctx.unrecognised('R9.5', 'token-match', 'shape', str(e))
+        ctx.unrecognised('R9.5', 'token-semantics', 'shape', str(e))
         return
-    blocks = t2o['Identifier']['blocks']
-    if not blocks:
-        ctx.unrecognised('R9.5', 'Identifier-arm', 'shape', 'Identifier arm not found', span=f.span)
-        return
-    # arm entry: the switch target, i.e. the block of the region with a predecessor outside the region
-    entry = [b for b in blocks if any(p not in blocks for p in f.pred(b))]
-    if len(entry) != 1:
-        ctx.unrecognised('R9.5', 'Identifier-arm', 'entry', 'arm entry not unique: %s' % entry, span=f.span)
-        return
-    tok = prog.adt(tables.TOKEN)
-    iv = [v for v in tok['variants'] if v['name'] == 'Identifier'][0]
-
-    def hook(it, fn, t, args):
-        c = t['callee']
-        if fn is f and c.get('local') and c['name'] in ('is_sequence', 'insert_back_prioritized', 'collapse_all_sequences'):
-            return Stop(tuple(args))
-        if fn is f and c['name'] == 'pop':
-            return Stop(None)
-        if c.get('local') and c['name'] in ('is_assignment', 'is_leftsided_value', 'is_rightsided_value'):
-            return ('app', c['name'], tuple(args))
-        return None
-    env = seed(f, {'next'})
-    env[place['l']] = ADT(tok['path'], iv['idx'], 'Identifier', [SYM('identifier')])
-    it = Interp(prog, hook=hook)
-    out = []
-    it._run(f, entry[0], env, 0, out, (), {})
-    seen = {}
-    for ret, eff in out:
-        # the node built on this path: last Node::new(...) argument
-        built = None
-        for e in eff:
-            if e[0].endswith('Node::<NumericTypes>::new') or short(e[0]).endswith('tree::Node::new'):
-                built = e[2][0]
-        if built is None or not is_adt(built, 'operator::Operator'):
-            continue
-        conds = []
-        for v, taken in branches_of(eff):
-            s = fmt(v)
-            if s.startswith('is_assignment(') or s.startswith('is_leftsided_value('):
-                conds.append((s.split('(')[0], is_true(taken)))
-            elif s.startswith('discriminant($next'):
-                conds.append(('next', 'Some' if taken == C(1) else 'None'))
-        key = tuple(conds)
-        seen.setdefault(key, set()).add((built[3], built[4]))
-    want = {
-        (('next', 'None'),): 'VariableIdentifierRead',
-        (('next', 'Some'), ('is_assignment', True)): 'VariableIdentifierWrite',
-        (('next', 'Some'), ('is_assignment', False), ('is_leftsided_value', True)): 'FunctionIdentifier',
-        (('next', 'Some'), ('is_assignment', False), ('is_leftsided_value', False)): 'VariableIdentifierRead',
-    }
-    got = {k: sorted(v) for k, v in seen.items()}
-    good = set(seen) == set(want) and all(len(seen[k]) == 1 and list(seen[k])[0] == (want[k], (SYM('identifier'),)) for k in want)
-    ctx.check(good, 'R9.5', 'Identifier-arm', 'classification', 'identifier followed by an assignment token is a write target, else followed by a left-sided value a function, else a variable read; the node carries the identifier (found %s)' % {str(k): [(a, [fmt(x) for x in b]) for a, b in v] for k, v in got.items()}, span=f.span)
-    ctx.sample(dict(rule='R9.5', classification={str(k): v for k, v in want.items()}))
+    f = sem['fn']
+    n = 0
+    bad = []
+    for N, got in sorted(sem['ident_next'].items(), key=lambda kv: str(kv[0])):
+        if N is None:
+            want = 'VariableIdentifierRead'
+        elif tp['is_assignment'][N]:
+            want = 'VariableIdentifierWrite'
+        elif tp['is_leftsided_value'][N]:
+            want = 'FunctionIdentifier'
+        else:
+            want = 'VariableIdentifierRead'
+        n += 1
+        ok_ = len(got) == 1 and list(got)[0][3] == want and list(got)[0][4] == (SYM('p'),)
+        if not ok_:
+            bad.append('%s -> %s (expected %s)' % (N, sorted(fmt(x) for x in got), want))
+    ctx.check(not bad, 'R9.5', 'Identifier-arm', 'classification', 'identifier followed by an assignment token is a write target, else followed by a left-sided value a function, else a variable read; the node carries the identifier (%d following-token cases; deviations: %s)' % (n, bad[:4]), span=f.span)
+    ctx.floor('R9.5', 'identifier_next_cases', n, 34)
+    ctx.sample(dict(rule='R9.5', classification={str(k): sorted(x[3] for x in v) for k, v in list(sem['ident_next'].items())[:8]}))
 
 
 def builtin_names(prog):
